@@ -287,7 +287,7 @@ PROPS = {
                         "Go int overflow of feed bounds is out of scope"],
     },
     "C19": {
-        "lean_modules": ["Props.Facts19", "Props.Facts19b", "Props.Gen19"],
+        "lean_modules": ["Props.Facts19", "Props.Facts19b", "Props.Gen19", "Props.Gen19h", "Props.GenT19h"],
         "groups": [{"name": "C19", "quick": 3000, "thorough": 60000},
                    {"name": "C19x", "quick": 4000, "thorough": 16777216, "workers": 16},
                    # processes started with the smallest accepted sizes, then used: fetches under cache_size = 1 and 2
@@ -299,7 +299,7 @@ PROPS = {
         "rule": "hexToAnsi on valid, near-valid (one bad digit, signs, underscores, wrong length, non-ASCII digits) and random strings; configuration files generated value-first (colours, preload_amount/timeout_seconds/cache_size from {-1000..1000} and from the edges of int32, of a duration in seconds and of int64, key names in other letter cases, values of other TOML types (durations as strings, floats, booleans, hex/octal/underscored integers, inline tables, dotted keys: the model starts from what the decoder produced), hooks of 0..3 arguments, unknown keys/tables, syntax errors, missing file) "
                 "then serialised to TOML and loaded by the real parse+postprocess; C19x walks the 16^6 colour space (a stride sample in quick, all of it in thorough); non-trivial = colour accepted / configuration not rejected by TOML itself; distinct by op content",
         "trusted": ["BurntSushi/toml decoding (the model starts from the decoded values; TOML-level rejections are the generator's ground truth)",
-                    "strconv.ParseUint(.,16,0) on two bytes and strconv.Itoa as modelled"],
+                    "strconv.ParseUint(.,16,0) on two bytes and strconv.Itoa as modelled; for the translated hexToAnsi/parse (Gen19h): Go strings as byte lists bridged to the model by core's UTF-8 encoding, the loop of strconv.ParseUint for an explicit base as transcribed in Model/GoBytes.lean, toml.DecodeFile as a parameter (struct written, metadata, error)"],
         "assumptions": ["Config.Safe is the only configuration hypothesis used by the panic-freedom theorems of C06/C07/C20"],
     },
     "C20": {
